@@ -9,7 +9,7 @@ From VL Require Import Prelude.Sx Prelude.PyDict Prelude.GDict Model.GetNBest Mo
      Proofs.GetNBest_proofs Proofs.QOrd Proofs.Scale_proofs Proofs.LRScale_proofs.
 Import ListNotations.
 
-Definition scale_ballots {B} (k : Q) (votes : list (B * Q)) : list (B * Q) :=
+Definition scale_w {B} (k : Q) (votes : list (B * Q)) : list (B * Q) :=
   map (fun bw => (fst bw, (k * snd bw)%Q)) votes.
 
 Section AddScale.
@@ -38,27 +38,27 @@ Section AddScale.
   Qed.
 
   Lemma conv_rel {B} (image : B -> list (K * Q)) (votes : list (B * Q)) :
-    grel (conv keqb image votes) (conv keqb image (scale_ballots k votes)).
+    grel (conv keqb image votes) (conv keqb image (scale_w k votes)).
   Proof.
     unfold conv. assert (H0 : grel [] []) by constructor. revert H0. generalize (@nil (K * Q)) at 1 3. generalize (@nil (K * Q)).
-    induction votes as [|[b w] votes IH]; intros d' d Hd; cbn [scale_ballots map fold_left]; [exact Hd|].
+    induction votes as [|[b w] votes IH]; intros d' d Hd; cbn [scale_w map fold_left]; [exact Hd|].
     apply IH. cbn [fst snd]. apply image_rel; [unfold qsc; reflexivity|exact Hd].
   Qed.
 
   Theorem additive_scale {B} (image : B -> list (K * Q)) (votes : list (B * Q)) (n : nat) :
-    get_n_best Qle_bool (conv keqb image (scale_ballots k votes)) n = get_n_best Qle_bool (conv keqb image votes) n.
+    get_n_best Qle_bool (conv keqb image (scale_w k votes)) n = get_n_best Qle_bool (conv keqb image votes) n.
   Proof. apply (get_n_best_rel Qle_bool Qle_bool (qsc k) (qsc_le k Hk)). apply conv_rel. Qed.
 
   (* the scaled totals themselves: same keys, same order, every total k-fold *)
   Theorem additive_totals_scale {B} (image : B -> list (K * Q)) (votes : list (B * Q)) :
     Forall2 (fun x y : K * Q => fst x = fst y /\ (snd y == k * snd x)%Q)
-            (conv keqb image votes) (conv keqb image (scale_ballots k votes)).
+            (conv keqb image votes) (conv keqb image (scale_w k votes)).
   Proof. exact (conv_rel image votes). Qed.
 End AddScale.
 
 (* ---------------------------------------------------------------- option-valued images (oconv) *)
-Lemma scale_ballots_fst {B} k (votes : list (B * Q)) : map fst (scale_ballots k votes) = map fst votes.
-Proof. unfold scale_ballots. rewrite map_map. reflexivity. Qed.
+Lemma scale_w_fst {B} k (votes : list (B * Q)) : map fst (scale_w k votes) = map fst votes.
+Proof. unfold scale_w. rewrite map_map. reflexivity. Qed.
 
 Lemma forallb_fst {B} (f : B -> bool) (l l' : list (B * Q)) : map fst l = map fst l' ->
   forallb (fun bw => f (fst bw)) l = forallb (fun bw => f (fst bw)) l'.
@@ -71,11 +71,11 @@ Definition ogbest (o : option (list (sx * Q))) (n : nat) : option (list (res sx)
   match o with Some d => Some (get_n_best Qle_bool d n) | None => None end.
 
 Theorem oconv_scale {B} (k : Q) (image : B -> option (list (sx * Q))) (votes : list (B * Q)) (n : nat) : (0 < k)%Q ->
-  ogbest (oconv image (scale_ballots k votes)) n = ogbest (oconv image votes) n.
+  ogbest (oconv image (scale_w k votes)) n = ogbest (oconv image votes) n.
 Proof.
   intros Hk. unfold oconv.
-  rewrite (forallb_fst (fun b => match image b with Some _ => true | None => false end) (scale_ballots k votes) votes
-             (scale_ballots_fst k votes)).
+  rewrite (forallb_fst (fun b => match image b with Some _ => true | None => false end) (scale_w k votes) votes
+             (scale_w_fst k votes)).
   destruct (forallb _ votes); [|reflexivity]. cbn [ogbest]. f_equal. apply (additive_scale sx_eqb k Hk).
 Qed.
 
@@ -87,17 +87,17 @@ Proof.
   cbn [map] in H. injection H as H1 H2. cbn [flat_map]. rewrite H1, (IH l' H2). reflexivity.
 Qed.
 
-Lemma cands_ranked_scale k votes : cands_ranked (scale_ballots k votes) = cands_ranked votes.
-Proof. unfold cands_ranked. f_equal. apply (flat_map_fst flatten), scale_ballots_fst. Qed.
+Lemma cands_ranked_scale k votes : cands_ranked (scale_w k votes) = cands_ranked votes.
+Proof. unfold cands_ranked. f_equal. apply (flat_map_fst flatten), scale_w_fst. Qed.
 
-Lemma cands_approval_scale k votes : cands_approval (scale_ballots k votes) = cands_approval votes.
-Proof. unfold cands_approval. f_equal. apply (flat_map_fst (fun b : list C => b)), scale_ballots_fst. Qed.
+Lemma cands_approval_scale k votes : cands_approval (scale_w k votes) = cands_approval votes.
+Proof. unfold cands_approval. f_equal. apply (flat_map_fst (fun b : list C => b)), scale_w_fst. Qed.
 
-Lemma cands_score_scale k votes : cands_score (scale_ballots k votes) = cands_score votes.
-Proof. unfold cands_score. f_equal. apply (flat_map_fst (fun b : sballot => map fst b)), scale_ballots_fst. Qed.
+Lemma cands_score_scale k votes : cands_score (scale_w k votes) = cands_score votes.
+Proof. unfold cands_score. f_equal. apply (flat_map_fst (fun b : sballot => map fst b)), scale_w_fst. Qed.
 
 (* the positional rule as the library runs it: the number of candidates is read off the profile *)
 Theorem positional_scale (k : Q) (s : scorer) (votes : list (ranked * Q)) (n : nat) : (0 < k)%Q ->
-  ogbest (oconv (img_positional s (length (cands_ranked (scale_ballots k votes)))) (scale_ballots k votes)) n
+  ogbest (oconv (img_positional s (length (cands_ranked (scale_w k votes)))) (scale_w k votes)) n
   = ogbest (oconv (img_positional s (length (cands_ranked votes))) votes) n.
 Proof. intros Hk. rewrite cands_ranked_scale. apply oconv_scale, Hk. Qed.
